@@ -152,7 +152,7 @@ theorem parseEtags_quoted (tag : Str) (h : CleanTag tag) :
   unfold parseEtags quoteTag
   have hq := quotedTag_clean tag [] h
   simp only [List.reverse_nil, List.nil_append] at hq
-  simp [parseEtagsLoop, hq]
+  simp [parseEtagsLoop, weakPrefix, etagMatch, quotedAt, hq]
 
 theorem strip_quoteTag (tag : Str) : Py.strip (quoteTag tag) = quoteTag tag := by
   unfold Py.strip Py.rstripBy quoteTag
